@@ -54,7 +54,7 @@ func newSwarm[A p2p.Addr](x p2p.Swarm[A], mtu int) *swarm[A] {
 }
 
 func (s *swarm[A]) Tell(ctx context.Context, addr A, data p2p.IOVec) error {
-	if p2p.VecSize(data) > s.mtu {
+	if p2p.VecSize(data) > s.MTU() {
 		return p2p.ErrMTUExceeded
 	}
 	underMTU := s.Swarm.MTU() - Overhead
@@ -65,12 +65,13 @@ func (s *swarm[A]) Tell(ctx context.Context, addr A, data p2p.IOVec) error {
 
 	size := p2p.VecSize(data)
 	data2 := p2p.VecBytes(nil, data)
-	total := size / underMTU
-	if size%underMTU > 0 {
-		total++
-	}
-	if total == 0 {
-		total = 1
+	total := 1
+	if size > 0 {
+		// size <= MTU() implies underMTU >= 1 here
+		total = size / underMTU
+		if size%underMTU > 0 {
+			total++
+		}
 	}
 	if total == 1 {
 		msg := newMessage(id, 0, 1, data2)
@@ -153,7 +154,14 @@ func (s *swarm[A]) handleTell(ctx context.Context, x p2p.Message[A]) error {
 	return err
 }
 
+// maxParts is the largest part count the 8 bit part and total fields can express.
+const maxParts = 255
+
 func (s *swarm[A]) MTU() int {
+	// a message can be split into at most maxParts parts
+	if limit := (s.Swarm.MTU() - Overhead) * maxParts; limit < s.mtu {
+		return limit
+	}
 	return s.mtu
 }
 
